@@ -14,7 +14,7 @@ from mmv import util
 PROP = 'C20'
 LEVEL = 'exploration'
 RULE = ('Each case is a batch of generated lists (0-12 entries; single days "YYYY/MM/DD" and ranges '
-        '"YYYY/MM/DD - YYYY/MM/DD", years 1700-2200, spans crossing month / year / Feb-29 boundaries, '
+        '"YYYY/MM/DD - YYYY/MM/DD", years 1000-9000, spans crossing month / year / Feb-29 boundaries, '
         'duplicates, nested and abutting ranges) run through find_days_to_exclude + expand_time_windows; the '
         'result is compared with a datetime.date model, and re-run on a permutation and on a duplicated copy '
         'of the list. Malformed lists (letters, impossible dates, wrong number of "-" parts incl. ISO dates, '
@@ -33,7 +33,8 @@ PER = {'quick': 60, 'thorough': 120}
 MALFORMED = ['abc', '2020/13/01', '2020/02/30', '2019/02/29', '2020/00/10', '2020/01/32', '2020-01-01',
              '2020/01/01 - 2020/01/05 - 2020/01/09', '   ', '2020/01/01 - ', ' - 2020/01/01',
              '2020/01/01 - abc', 'x/y/z', '2020/01/01 – 2020/01/02', '1900/02/29', '2100/02/29',
-             '2021/04/31', '2020/06/31 - 2020/07/02', '2020/01/01 - 2020/02/30', '--', '2020/01/0a', '']
+             '2021/04/31', '2020/06/31 - 2020/07/02', '2020/01/01 - 2020/02/30', '--', '2020/01/0a', '',
+             '2020/1_0/01', '2_020/01/01', '+2020/01/01', '2020/01/01 - 2020/01/0_5', '2020/01/+5', '20_20/1_2/3_1']
 
 
 def n_cases(tier):
@@ -62,6 +63,9 @@ def rand_day(r):
     y, m = r.randrange(1700, 2201), r.randrange(1, 13)
     first_next = datetime.date(y + (m == 12), (m % 12) + 1, 1)
     return first_next - datetime.timedelta(days=r.randrange(0, 4))
+  if u < 0.55:     # far from the present: the format has four year digits
+    y = r.choice([1000, 1400, 1600, 1677, 2262, 2263, 2400, 3000, 5000, 9000])
+    return datetime.date(y, r.choice([2, 4, 9, 12]), 1) + datetime.timedelta(days=r.randrange(0, 40))
   return datetime.date(r.randrange(1700, 2201), 1, 1) + datetime.timedelta(days=r.randrange(0, 365))
 
 
@@ -90,7 +94,7 @@ def gen_list(r):
       a = anchor + datetime.timedelta(days=r.randrange(-40, 40)) if r.random() < 0.6 else rand_day(r)
       length = r.choice([0, 0, 1, 2, 6, 13, 30, 45, 100, 400]) if r.random() < 0.97 else 2000
       b = a + datetime.timedelta(days=length)
-    if b.year > 2200 or a.year < 1700:
+    if b.year > 9990 or a.year < 1000:
       continue
     spans.append((a, b))
     if a == b and r.random() < 0.7:
